@@ -395,8 +395,16 @@ func (e *Encoder) loopHeader(li *loopInfo, b *ssa.BasicBlock, st *State, pc stri
 			if !e.nonLocalKeys[k] {
 				// every store to this map in the loop goes through an object allocated by this function:
 				// cells of objects that existed at function entry are unchanged by the loop.
+				// (objects allocated inside the loop have roots >= the counter at loop entry; objects
+				// allocated by this function before the loop and written in it are excluded by name)
 				cur := st.get(c, k, srt)
-				c.assume(fmt.Sprintf("(forall ((p!f Loc)) (! (=> (< (rootof p!f) ctr0) (= (select %s p!f) (select %s p!f))) :pattern ((select %s p!f))))", n, cur, n))
+				cond := fmt.Sprintf("(< (rootof p!f) %s)", li.preSt.ctr)
+				for al := range e.loopOuterAllocs {
+					if v, ok := e.vals[al]; ok {
+						cond = and(cond, fmt.Sprintf("(not (= (rootof p!f) (rootof %s)))", v.S))
+					}
+				}
+				c.assume(fmt.Sprintf("(forall ((p!f Loc)) (! (=> %s (= (select %s p!f) (select %s p!f))) :pattern ((select %s p!f))))", cond, n, cur, n))
 			}
 			st.mem[k] = n
 		}
@@ -546,11 +554,16 @@ func (e *Encoder) loopBack(li *loopInfo, from *ssa.BasicBlock, si int, st *State
 }
 
 func (e *Encoder) panicObl(kind, text, pc, safe string) {
-	if e.fc == nil || !e.fc.NoPanic {
+	if kind != "nil" && (e.fc == nil || !e.fc.NoPanic) {
 		return
 	}
 	if kind == "nil" {
-		return // nil dereference is not part of the nopanic obligations (stated in DESIGN.md)
+		// nil dereference is not part of the nopanic obligations (stated in DESIGN.md); execution only
+		// continues past a dereference when the pointer is not nil, which is assumed from here on.
+		if safe != "true" && !strings.Contains(safe, "new!") {
+			e.c.assume(implies(pc, safe))
+		}
+		return
 	}
 	if !e.primary {
 		return
@@ -567,6 +580,13 @@ func (e *Encoder) instr(in ssa.Instruction, st *State, pc string) {
 		pt := in.Type().Underlying().(*types.Pointer)
 		loc := e.alloc(st)
 		e.vals[in] = Val{T: in.Type(), S: loc}
+		if at, ok := pt.Elem().Underlying().(*types.Array); ok && !scalarElem(at.Elem()) && at.Len() <= 64 {
+			// zero each aggregate element directly (no constant-array term: cvc5 wants a value there)
+			for i := int64(0); i < at.Len(); i++ {
+				e.store(st, fmt.Sprintf("(lelem %s %s)", loc, c.idxLit(i)), at.Elem(), e.zero(at.Elem()).S)
+			}
+			break
+		}
 		e.store(st, loc, pt.Elem(), e.zero(pt.Elem()).S)
 	case *ssa.BinOp:
 		e.vals[in] = e.binop(in, st, pc)
@@ -942,7 +962,10 @@ func (e *Encoder) convert(in *ssa.Convert, st *State, pc string) Val {
 	case isString(to) && isByteSlice(from):
 		env := e.envFor(st)
 		s := env.bytesToStr(x)
-		n := c.define("str", "Str", s)
+		// a declared constant (not a macro) so that it can appear in quantifier patterns
+		n := c.fresh("str")
+		c.declare(n, "Str")
+		c.assume(fmt.Sprintf("(= %s %s)", n, s))
 		c.assume(implies(pc, fmt.Sprintf("(= (str_len %s) (slen %s))", n, x.S)))
 		// content: str_at(n, i) == x[i]
 		m := st.get(c, "arr_u8", c.arrSort(types.Typ[types.Uint8]))
@@ -954,6 +977,8 @@ func (e *Encoder) convert(in *ssa.Convert, st *State, pc string) Val {
 		v := Val{T: to, S: c.define("bs", "Slice", fmt.Sprintf("(mkslice %s %s %s %s)", loc, c.idxLit(0), l, l))}
 		m := st.get(c, "arr_u8", c.arrSort(types.Typ[types.Uint8]))
 		c.assume(implies(pc, fmt.Sprintf("(forall ((i!s %s)) (! (= (select (select %s %s) i!s) (str_at %s i!s)) :pattern ((select (select %s %s) i!s))))", c.idx(), m, loc, x.S, m, loc)))
+		// string([]byte(s)) == s
+		c.assume(implies(pc, fmt.Sprintf("(= %s %s)", e.envFor(st).bytesToStr(v), x.S)))
 		return v
 	case isFloat(from) || isFloat(to):
 		fn := "fconv_" + sanitize(from.Underlying().String()) + "_" + sanitize(to.Underlying().String())
@@ -1112,7 +1137,7 @@ func (e *Encoder) frameObl(st *State, pc string, env *Env) {
 			continue
 		}
 		if strings.HasPrefix(k, "arr_") {
-			same = append(same, fmt.Sprintf("(=> ((_ is lelem) %s) (= (select (select %s (ebase %s)) (eidx %s)) (select (select %s (ebase %s)) (eidx %s))))", p, cur, p, p, old, p, p))
+			same = append(same, fmt.Sprintf("(=> (is_lelem %s) (= (select (select %s (ebase %s)) (eidx %s)) (select (select %s (ebase %s)) (eidx %s))))", p, cur, p, p, old, p, p))
 		} else {
 			same = append(same, fmt.Sprintf("(= (select %s %s) (select %s %s))", cur, p, old, p))
 		}
@@ -1140,7 +1165,7 @@ func (e *Encoder) modClause(env *Env, m Expr, p string) (s string, err error) {
 			v := env.elab(call.Args[0])
 			intT := types.Typ[types.Int]
 			off := fmt.Sprintf("(soff %s)", v.S)
-			return fmt.Sprintf("(and ((_ is lelem) %s) (= (ebase %s) (sbase %s)) %s %s)", p, p, v.S,
+			return fmt.Sprintf("(and (is_lelem %s) (= (ebase %s) (sbase %s)) %s %s)", p, p, v.S,
 				c.cmp("<=", intT, off, fmt.Sprintf("(eidx %s)", p)), c.cmp("<", intT, fmt.Sprintf("(eidx %s)", p), c.binopIdx("+", off, fmt.Sprintf("(scap %s)", v.S)))), nil
 		}
 	}
@@ -1161,7 +1186,7 @@ func (e *Encoder) coveredBy(loc string, t types.Type, p string) string {
 		return or(cs...)
 	case *types.Array:
 		if scalarElem(u.Elem()) {
-			return fmt.Sprintf("(and ((_ is lelem) %s) (= (ebase %s) %s))", p, p, loc)
+			return fmt.Sprintf("(and (is_lelem %s) (= (ebase %s) %s))", p, p, loc)
 		}
 		if u.Len() <= 64 {
 			var cs []string
